@@ -1,6 +1,6 @@
 """SS: sibling agreement and small structural rules (C12, C13, C14, C15, C18, C19, C20)."""
 import hirutil as H
-from hp import (ANY_FIELD, INDEX, Ctx, ANY, K, L, F, M, C, BIN, UN, CAST, TRY, P, VIA, OR, IF, CONTAINS, find, strip, canon,
+from hp import (project_field, unique_inits, ANY_FIELD, INDEX, Ctx, ANY, K, L, F, M, C, BIN, UN, CAST, TRY, P, VIA, OR, IF, CONTAINS, find, strip, canon,
                 struct_field_inits)
 from facts import callee_of, op_local, op_place, place_key, resolve_ref, value_def, field_path
 from common import loc_of
@@ -948,20 +948,37 @@ def _run_c14(facts, out):
         ok = len(ci) == 1 and len(si) == 1 and canon(ci[0][0]) == canon(si[0][0])
         out.add('SS-C14', HITOBJ, 'circle/slider:' + field, '%s:%d' % (b.file, ci[0][1] if ci else b.line), ok,
                 '' if ok else 'circle and slider compute `%s` differently' % field, ordinal=False)
+    def resolved(cx, e, depth=0):
+        # the expression a field initialiser stands for: single-`let` locals and fields of a struct a helper returns
+        e0 = strip(e)
+        if depth < 6 and isinstance(e0, dict):
+            if e0.get('k') == 'local':
+                its = unique_inits(cx, e0['name'])
+                if len(its) == 1 and strip(its[0]) is not e0:
+                    return resolved(cx, its[0], depth + 1)
+            if e0.get('k') == 'field':
+                pf = project_field(cx, e0)
+                if pf is not None:
+                    return resolved(pf[1], pf[0], depth + 1)
+        return e, cx
     nc = struct_field_inits(hfn, 'section::hit_objects::circle::HitObjectCircle', 'new_combo')
+    ctx0 = ctx
     if nc:
-        e = nc[0][0]
+        e, ctx = resolved(ctx0, nc[0][0])
         first = OR(M('first_object', L('state')), M('is_none', F(L('state'), 'last_object')))
         FLAG = OR(L('new_combo'), F(ANY(), 'new_combo'))       # the parsed flag, possibly a field of a small struct
         ok = bool(find(ctx, e, first)) and bool(find(ctx, e, M('last_object_was_spinner', L('state')))) \
             and bool(find(ctx, e, FLAG))
         out.add('SS-C14', HITOBJ, 'forced-new-combo', '%s:%d' % (b.file, nc[0][1]), ok,
                 '' if ok else 'new_combo must be `first_object || last_object_was_spinner || flag`', ordinal=False)
+    ctx = ctx0
     co = struct_field_inits(hfn, 'section::hit_objects::circle::HitObjectCircle', 'combo_offset')
     if co:
         FLAG = OR(L('new_combo'), F(ANY(), 'new_combo'))
         OFFS = OR(L('combo_offset'), F(ANY(), 'combo_offset'))
-        ok = VIA(IF(FLAG, CONTAINS(OFFS), CONTAINS(K(0)))).m(ctx, co[0][0])
+        e_co, ctx = resolved(ctx0, co[0][0])
+        ok = VIA(IF(FLAG, CONTAINS(OFFS), CONTAINS(K(0)))).m(ctx, e_co)
+        ctx = ctx0
         out.add('SS-C14', HITOBJ, 'combo-offset-only-with-new-combo', '%s:%d' % (b.file, co[0][1]), ok,
                 '' if ok else 'combo offset must count only together with the new-combo flag', ordinal=False)
     sp = struct_field_inits(hfn, 'section::hit_objects::spinner::HitObjectSpinner', 'new_combo')
@@ -1046,6 +1063,12 @@ def run_c15(facts, out):
         for r_, mult, _n in H.new_combo_or_sites(facts, h2):
             if L('force_new_combo').m(c2, r_):
                 sets += mult
+            else:
+                from hp import slice_cursor_break_flag
+                scf = slice_cursor_break_flag(c2, h2, r_)
+                if scf is not None and scf[0]:
+                    sets += mult
+                    cond = cond or [True]
         ok = bool(cond) and sets == 3
         bb = facts.body(pp)
         out.add('SS-C15', pp, 'new-combo-after-break', '%s:%d' % (bb.file, bb.line), ok,
